@@ -103,6 +103,49 @@ def _cvc5_check(assertions):
     return ans
 
 
+def _cvc5_model(assertions, inputs):
+    """counter-model from cvc5 for the registered scalar inputs ({name: value}) or None"""
+    s = z3.Solver()
+    for a in assertions:
+        s.add(a)
+    names = [n for n, (c, kind) in inputs.items() if kind in ("str", "bytes", "int", "bool")]
+    if not names:
+        return None
+    text = "(set-logic ALL)\n(set-option :produce-models true)\n" + s.to_smt2()
+    consts = " ".join(inputs[n][0].sexpr() for n in names)
+    text += "\n(get-value (%s))\n" % consts
+    try:
+        with tempfile.NamedTemporaryFile("w", suffix=".smt2", delete=False) as f:
+            f.write(text)
+            name = f.name
+        try:
+            out = subprocess.run([CVC5, "--strings-exp", "--strings-fmf", "--tlimit=%d" % (CVC5_TIMEOUT_S * 1000), name],
+                                 capture_output=True, text=True, timeout=CVC5_TIMEOUT_S + 5).stdout
+        finally:
+            os.unlink(name)
+    except Exception:
+        return None
+    if not out.startswith("sat"):
+        return None
+    model = {}
+    body = out[out.index("\n") + 1:]
+    for n in names:
+        c, kind = inputs[n]
+        sx = c.sexpr()
+        m = re.search(r"\(%s\s+(\"(?:[^\"]|\"\")*\"|\(- \d+\)|-?\d+|true|false)\)" % re.escape(sx), body)
+        if not m:
+            continue
+        v = m.group(1)
+        if kind in ("str", "bytes"):
+            sv = unesc(v[1:-1].replace('""', '"'))
+            model[n] = sv.encode("latin-1", errors="replace") if kind == "bytes" else sv
+        elif kind == "int":
+            model[n] = -int(v[3:-1]) if v.startswith("(") else int(v)
+        else:
+            model[n] = v == "true"
+    return model or None
+
+
 class Obligation:
     __slots__ = ("label", "status", "paths", "fail", "backend", "time", "note")
 
@@ -469,8 +512,11 @@ def _prove_uncached(p, ob, cond, label, detail, t0):
         p.failed.append(label)
         if ob.status != "refuted":
             ob.status = "refuted"
+            mdl = p.model(neg) if neg is not None else p.model()
+            if mdl is None and neg is not None:
+                mdl = _cvc5_model(p.pc + [neg], p.inputs)
             ob.fail = {
-                "model": p.model(neg) if neg is not None else p.model(),
+                "model": mdl,
                 "trace": list(p.trace),
                 "detail": detail() if callable(detail) else detail,
                 "notes": list(p.notes),
